@@ -646,7 +646,12 @@ pub fn run_trace(trace: &Trace, ctx: &mut Ctx) -> RunOutcome {
             result.harness_error = Some(format!("storage fault fired {fired_r} times on the Rust side and {fired_f} on the FFI side at step {si}"));
             break;
         }
-        ctx.log.add(&[rr.ok as u8, fr.ok as u8]);
+        // inputs derived from random proof bytes (bit flips inside the proof) may fail to decode or decode and
+        // fail verification: the flag of such calls is not logged, only compared
+        let proof_dependent = matches!(call, Call::VerifyRln { flip, .. } if *flip >= 0) || matches!(call, Call::Prove { .. });
+        if !proof_dependent {
+            ctx.log.add(&[rr.ok as u8, fr.ok as u8]);
+        }
         if rr.ok != fr.ok {
             fail!(si, call, "flag", format!("Rust API returned {} but the FFI flag is {}", if rr.ok { "Ok" } else { "Err" }, fr.ok));
         }
